@@ -45,7 +45,11 @@ def classify(ctx: HandlerContext) -> Classification:
         if token in ("-exec", "-execdir"):
             inner_tokens = []
             j = i + 1
-            while j < len(tokens) and tokens[j] not in (";", "\\;", "+"):
+            # `+` ends the clause only right after `{}`
+            while j < len(tokens) and not (
+                tokens[j] in (";", "\\;")
+                or (tokens[j] == "+" and inner_tokens and inner_tokens[-1] == "{}")
+            ):
                 inner_tokens.append(tokens[j])
                 j += 1
             if not inner_tokens:
